@@ -1080,30 +1080,23 @@ theorem failing_device_run (N : NumOps) (persist : Bool) (s : Run) (schedule : L
     simp only [Run.exec, List.foldl_cons] at this ⊢
     refine ⟨by rw [this.1, h1], by rw [this.2.1, h2], by rw [this.2.2, h3]⟩
 
-/-- OBSERVED (I/O failures are outside the property; recorded because the two runners differ): with a file
-policy on a device that refuses writes, `run` under `PersistResponseInMemory` is an error as soon as one
-response was searched (`run_batch_with_responses` propagates the failed write), while under
-`DiscardResponseFromMemory` it succeeds with nothing handed back and nothing written
-(`run_batch_without_responses` drops the error of every write): the responses exist nowhere. -/
-theorem discard_policy_swallows_write_failures (N : NumOps) (sink : FileSink) (queues : List (List Json))
-    (schedule : List Nat) (hp : sink.poisoned = false) (hf : sink.failing = true)
-    (hw : ∀ r ∈ queues.flatten, Writable N sink.format r) (hdone : Complete queues schedule)
-    (hne : queues.flatten ≠ []) :
-    appRun N false sink queues [] schedule = some (sink, []) ∧
-    appRun N true sink queues [] schedule = none := by
-  have run := fun persist => failing_device_run N persist (Run.init sink queues) schedule hp hf hw
-  have hdoneq := fun persist => done_flatten_nil _ (done_of_complete N persist sink queues schedule hdone)
-  constructor
-  · obtain ⟨h1, h2, _⟩ := run false
-    simp only [appRun, writeSeq, Bool.false_and, Bool.false_eq_true, if_false, h1, h2]
-    simp [Run.init]
-  · obtain ⟨_, _, h3⟩ := run true
-    rw [hdoneq true] at h3
-    have hpos : 0 < queues.flatten.length := List.length_pos_iff.2 hne
-    have : ((Run.init sink queues).exec N true schedule).failed > 0 := by
-      simp only [Run.init, List.length_nil] at h3 ⊢
-      omega
-    simp [appRun, writeSeq, this]
+/-- **A device that refuses writes fails the run under both persistence policies.**  With at least one
+response to write, `run` is an error whether the responses are kept in memory or discarded: both batch
+loops propagate the failed write.  (Before /repo 80a5c9a the discard loop dropped the error of every
+write — `let _ = fold(..)` — so the run succeeded with nothing handed back and nothing written: the
+responses existed nowhere.) -/
+theorem failing_device_fails_the_run_under_both_policies (N : NumOps) (sink : FileSink)
+    (queues : List (List Json)) (schedule : List Nat) (hp : sink.poisoned = false)
+    (hf : sink.failing = true) (hw : ∀ r ∈ queues.flatten, Writable N sink.format r)
+    (hdone : Complete queues schedule) (hne : queues.flatten ≠ []) (persist : Bool) :
+    appRun N persist sink queues [] schedule = none := by
+  obtain ⟨_, _, h3⟩ := failing_device_run N persist (Run.init sink queues) schedule hp hf hw
+  rw [done_flatten_nil _ (done_of_complete N persist sink queues schedule hdone)] at h3
+  have hpos : 0 < queues.flatten.length := List.length_pos_iff.2 hne
+  have : ((Run.init sink queues).exec N persist schedule).failed > 0 := by
+    simp only [Run.init, List.length_nil] at h3 ⊢
+    omega
+  simp [appRun, writeSeq, this]
 
 /-- `close` on a healthy sink appends exactly the closing record (empty for CSV and newline-delimited JSON,
 the bracket for the JSON array form) and reports the file name; on a poisoned or failing sink it is an
